@@ -17,6 +17,7 @@ TRANSLATORS = [
     ('gen_splitter', ['SplitTab.v']),
     ('gen_singleton', ['SingletonProg.v']),
     ('gen_case2', ['CaseTabs2.v']),
+    ('gen_sites', ['SiteInv.v']),
 ]
 
 
